@@ -1,5 +1,5 @@
 CHECK = {
-    "obligations": ["C08.c08_once", "C08.c08_retention", "C08.c08_concurrent", "C08.c08_altered",
+    "obligations": ["C08.c08_two_readings_witness", "C08.c08_once", "C08.c08_retention", "C08.c08_concurrent", "C08.c08_altered",
                     "C08.gen_evict_sound", "C08.gen_window_sound", "C08.gen_key_canonical", "C08.gen_structure",
                     "C08.step_sim", "C08.run_sim",
                     "C08.c08_retention_witness_pinned", "C08.c08_one_tol_insufficient", "C08.c08_altered_witness_pinned",
